@@ -247,6 +247,13 @@ def extra_skeletons():
                 T.binop("Or", T.binop("Lt", cmp_field, L), T.binop("GtE", cmp_field, L)), T.unop("Not", T.binop("In", cmp_field, T.lst(L)))]
     for st in (T.Str("x"),):
         out += SC.string_position_terms(st, {"indexof": True, "concat": True})
+    # comparisons between two boolean expressions that both carry values (ORMs may turn one side into an annotation/alias)
+    X, I1 = T.Str("x"), T.Int(0)
+    c1, c2 = T.call("contains", s, X), T.call("startswith", g, X)
+    e1, e2 = T.binop("Eq", n, I1), T.binop("Eq", s, X)
+    for a_, b_ in ((e1, e2), (c1, c2), (c1, e1), (e2, c1), (T.binop("Gt", n, I1), T.binop("In", s, T.lst(X, X)))):
+        out += [T.binop("Eq", a_, b_), T.binop("NotEq", a_, b_), T.binop("And", T.binop("Eq", a_, b_), T.binop("Lt", n, I1)),
+                T.unop("Not", T.binop("Eq", a_, b_))]
     return out
 
 
